@@ -362,6 +362,38 @@ def merge(a, b):
                     o.update({k: e[k] for k in ("hex", "display", "msg", "stream")})
 
 
+def typedecl_texts(quick):
+    """WELL-FORMED type-level declarations in every small combination: aliases (also cyclic: self, mutual, through tuple / array /
+    function / record types), sum types with and without `rec` whose payloads mention them, at top level or inside a module, followed by
+    a use (or none).  The token-sequence enumerations stop far below the ~12 tokens such a text needs (seeded C04d: a cyclic alias inside
+    the payload of a non-`rec` sum type sent the recursion check of type declarations into unbounded recursion)."""
+    bodies = ["float", "A", "B", "(float, A)", "(B, float)", "[A]", "[B]", "(A) -> float", "{x: B}", "(float, (A, B))"]
+    if quick:
+        bodies = bodies[:8]
+    decls = []
+    for n in ("A", "B"):
+        for b in bodies:
+            decls.append(f"type alias {n} = {b}")
+    for n in ("T", "A"):
+        for rec in ("", "rec "):
+            for b in (["float", "A", "B", "(float, A)", "[B]", "T"] if quick else bodies + ["T"]):
+                decls.append(f"type {rec}{n} = V({b}) | W")
+    uses = ["", "fn dsp(x:A) -> float { 0.0 }", "fn dsp() -> float { 0.0 }", "fn f(t:T){ t }\nfn dsp(){ 0.0 }"]
+    out = []
+    for i, d1 in enumerate(decls):
+        for j, d2 in enumerate(decls):
+            if d1.split(" = ")[0].split()[-1] == d2.split(" = ")[0].split()[-1] and i != j and not quick:
+                pass                 # the same name declared twice is a text like any other
+            u = uses[(i * 7 + j) % len(uses)]
+            out.append(f"{d1}\n{d2}\n{u}\n")
+            if (i + j) % 5 == 0:
+                out.append(f"mod m {{\n{d1}\n{d2}\n}}\n{u}\n")
+    for d in decls:
+        for u in uses:
+            out.append(f"{d}\n{u}\n")
+    return out
+
+
 def main(ctx, args):
     ctx.assumptions += [
         "Model/ParserLoops.lean abstracts the grammar functions called inside a loop to arbitrary sequences of builder/parser primitives; "
@@ -474,6 +506,10 @@ def main(ctx, args):
         for k in known:
             data += hx(k["src"]) + "\n"
         problems += absorb(stats, "corpus", run_sup(["lines"], stdin_data=data).stdout)
+        tds = typedecl_texts(quick)
+        nsh = 8
+        for part in parallel([tds[i::nsh] for i in range(nsh)], lambda ts: run_sup(["lines"], stdin_data="".join(hx(t) + "\n" for t in ts)).stdout):
+            problems += absorb(stats, "typedecl", part)
         jobs = []
         sh = 16 if quick else 64
         full_len, core_len = (3, 5) if quick else (4, 6)
